@@ -20,13 +20,13 @@ NOTES = {
  "C13": ("collision search predicates and resolve algebra (merge, hard sphere), index fix-up after removals", "doubles as reals; recursive tree search not decided"),
  "C14": ("abstract sequence view of add/remove/hash lookup incl. arbitrary stale lookup tables, memory safety, Python container index logic", "qsort contract assumed; integers mathematical"),
  "C15": ("boundary wrap loops, open-boundary removal, ghost boxes, tree local lemmas", "doubles as reals; global tree invariant not decided"),
+ "C17": ("reb_particle_diff differs iff a non-pointer member differs; compare-mode flag semantics of reb_binary_diff for arbitrary field sequences; no persisted array embedding addresses is compared byte-wise; copy reads the source only through the serialiser", "byte content uninterpreted; evolution of a copy argued from C05 only"),
  "C18": ("exhaustive per-member comparison of clang record layouts with the ctypes classes, option tables vs C enums, setter/getter round trips", "x86-64 layout; alias table listed as assumptions"),
  "C19": ("whole-library frames: no written global state except reb_sigint, no non-reentrant libc, lockset around step and served serialisation, serialisation write frame", "data-race-freedom meta-theorem trusted; scheduling itself not modelled"),
  "C20": ("quaternion algebra and constructors incl. degenerate ones, unit conversions, frame shifts and linear combinations", "doubles as reals; reference constants table is an assumption"),
 }
 NA = {
  "C16": "variational equations: contract pack not built yet in this session (planned: derivative constructors vs symbolic derivative of the forward map)",
- "C17": "copy/compare: contract pack not built yet in this session",
 }
 props = [json.loads(l)["id"] for l in open(os.path.join(ROOT, "properties.jsonl"))]
 have = sorted({os.path.basename(p)[:3] for p in glob.glob(os.path.join(ROOT, "contracts", "C[0-9][0-9]_*.py"))})
